@@ -133,6 +133,7 @@ inductive ItemMode where
 inductive CtxKind where
   | plain                          -- an AsyncContext that only logs resume/pause
   | override (var val : Nat)       -- AsyncScopedValue.override(val)
+  | nonasync                       -- a NonAsyncContext: pause()/resume() raise AssertionError
   deriving Repr, DecidableEq, Inhabited
 
 inductive LazyOut where
